@@ -506,6 +506,13 @@ def gen_policy(r, profile, opts, flags):
         if name in ("EDF", "FIFO") and r.random() < opts.get("p_enforce", 0.3):
             pol["enforce_deadlines"] = True
         return pol
+    if profile == "chaos" and opts.get("chaos_replan"):
+        # a chaos policy that plans ahead, revises its plans and retracts them often
+        return {"name": "Chaos", "runtime": r.choice([0, 0, 1]), "lookahead": r.choice([2, 5, 20]),
+                "retract": True, "release_taskgraphs": r.random() < 0.4, "ids": r.random() < 0.5,
+                "p_skip": r.choice([0.2, 0.4]), "p_cancel": r.choice([0.0, 0.05]),
+                "p_future": r.choice([0.6, 0.9]), "p_omit": 0.0, "p_full": r.choice([0.0, 0.3]),
+                "p_batch": 0.0, "p_load": 0.0, "future_deltas": [3, 5, 8, 13]}
     if profile == "chaos":
         return {"name": "Chaos", "runtime": r.choice([0, 0, 1, 2, 3]),
                 "lookahead": r.choice([0, 0, 2, 5, 20]),
